@@ -85,7 +85,8 @@ def parse_path(s):
             # '<impl Foo>' segment or generic args '::<...>' (the '::' was consumed)
             e = match_close(s, i, angle=True)
             body = s[i:e + 1]
-            if body.startswith("<impl "):
+            is_gen = body.startswith(("<impl Fn", "<impl for<")) or len(split_top(body[1:-1])) > 1
+            if body.startswith("<impl ") and not (is_gen and segs):
                 segs.append((body, []))
             else:
                 if not segs:
@@ -167,6 +168,12 @@ class Program:
         self.fn_generics = {}     # fn def name -> [param names]
         self.enum_variants = {}   # enum short name -> [variant names]
         self.struct_fields = {}   # struct short name -> [field names]
+        self.variant_has_fields = {("Option", "Some"): True, ("Result", "Ok"): True, ("Result", "Err"): True,
+                                   ("ErrMode", "Backtrack"): True, ("ErrMode", "Cut"): True, ("ErrMode", "Incomplete"): True,
+                                   ("StrContext", "Label"): True, ("StrContext", "Expected"): True,
+                                   ("StrContextValue", "Description"): True, ("StrContextValue", "CharLiteral"): True,
+                                   ("StrContextValue", "StringLiteral"): True, ("ControlFlow", "Continue"): True,
+                                   ("ControlFlow", "Break"): True}
         self._index()
 
     def src_line(self, file, line):
@@ -200,8 +207,11 @@ class Program:
                     rest = rest[2:]
                 if info is None:
                     continue
-                if info["trait"]:
-                    self.trait_impls.setdefault((info["trait"], rest), []).append((info["self_ty"], info["generics"], name, bool(info.get("derive"))))
+                if info["trait"] == "Error" and info.get("derive") and rest == "fmt":
+                    # thiserror: #[derive(Error)] generates the Display impl from the #[error("..")] attributes
+                    self.trait_impls.setdefault(("Display", rest), []).append((info["self_ty"], info["generics"], name, False, "Display"))
+                elif info["trait"]:
+                    self.trait_impls.setdefault((info["trait"], rest), []).append((info["self_ty"], info["generics"], name, bool(info.get("derive")), info.get("trait_full") or info["trait"]))
                 else:
                     self.inherent[(type_head(info["self_ty"]), rest)] = name
         self._scan_source()
@@ -260,9 +270,11 @@ class Program:
                     vs = []
                     for part in split_top(body):
                         part = re.sub(r"#\[[^\]]*\]", "", part).strip()
+                        part = re.sub(r"^///[^\n]*\n", "", part).strip()
                         mm = re.match(r"(\w+)", part)
                         if mm:
                             vs.append(mm.group(1))
+                            self.variant_has_fields[(m.group(1), mm.group(1))] = part[mm.end():].lstrip().startswith(("(", "{"))
                     self.enum_variants[m.group(1)] = vs
                 for m in re.finditer(r"\bstruct\s+(\w+)\s*(?:<[^>]*>)?\s*\{", text_nc):
                     e = match_close(text_nc, m.end() - 1, angle=False)
@@ -299,12 +311,20 @@ class Program:
             cands = self.trait_impls.get((type_head(path.trait), rest))
             if cands:
                 want = short_type(path.qself)
-                for pat, gens, fname, derived in cands:
+                hits = []
+                for pat, gens, fname, derived, tfull in cands:
                     if derived and handwritten_only:
                         continue
                     b = unify_type(pat, want, gens)
                     if b is not None:
-                        return self.funcs[fname], b
+                        hits.append((fname, b, tfull))
+                if len(hits) > 1:
+                    wt = short_type(path.trait)
+                    exact = [h for h in hits if h[2].replace(" ", "") == wt.replace(" ", "")]
+                    if exact:
+                        hits = exact
+                if hits:
+                    return self.funcs[hits[0][0]], hits[0][1]
             return None
         if len(names) >= 2:
             ty = names[-2]
@@ -363,6 +383,9 @@ class Program:
             owner = segs[-2] if len(segs) > 1 else None
             hit = [c for c in cands if short_type(c.ret) == owner or c.name.endswith("::".join(segs[-2:]))]
             if len(hit) >= 1:
+                return hit[0]
+            hit = [c for c in cands if "<impl" not in c.name]
+            if len(hit) == 1:
                 return hit[0]
         return None
 
@@ -634,7 +657,7 @@ class Interp:
                 return v.fields[n]
             if isinstance(v, Closure):
                 return v.captures[n]
-            if isinstance(v, BoxV) and n == 0:
+            if isinstance(v, (BoxV, HeapBox)) and n == 0:
                 return v
             raise Unsupported("field %d of %r (%s)" % (n, v, type(v).__name__))
         if k == "downcast":
@@ -693,6 +716,10 @@ class Interp:
                 if isinstance(cur, BoxV):
                     path = path + (("box",),)
                     continue
+                if isinstance(cur, HeapBox):
+                    # writes through the raw pointer of an uninitialised box: the MaybeUninit /
+                    # ManuallyDrop / MaybeDangling wrapper fields are transparent
+                    return cur.key, ()
                 if isinstance(cur, ValRef):
                     raise Unsupported("write through shared reference in " + fr.fn.name)
                 raise Unsupported("deref-resolve of %r" % (cur,))
@@ -709,6 +736,13 @@ class Interp:
         if not pl.proj:
             st.store[(fr.fid, pl.local)] = val
             return
+        if (fr.fid, pl.local) not in st.store and pl.proj[0][0] == "field":
+            # aggregate initialised field by field
+            t = subst_env(fr.fn.locals.get(pl.local, ""), fr.env).strip()
+            if t.startswith("(") and t.endswith(")"):
+                st.store[(fr.fid, pl.local)] = tuple([None] * len(split_top(t[1:-1])))
+            else:
+                raise Unsupported("field-wise initialisation of " + t[:80])
         key, path = self.resolve(pl, fr, st)
         self.write_cell(key, path, val, st)
 
@@ -801,7 +835,7 @@ class Interp:
             return self.value_from_zst_type(subst_env(c.ty, fr.env), fr.env)
         if k == "path":
             text = subst_env(c.value, fr.env)
-            if text.endswith("SizedTypeProperties>::ALIGN"):
+            if text.endswith("SizedTypeProperties>::ALIGN") or text.endswith("SizedTypeProperties>::SIZE"):
                 return 8
             if text.startswith("{") and text.endswith("}"):
                 raise Unsupported("const " + text)
@@ -947,7 +981,7 @@ class Interp:
         a = rv.args
         if k == "use":
             v = self.eval_operand(a[0], fr, st)
-            if isinstance(v, VariantOrCtor):
+            if isinstance(v, VariantOrCtor) and not self.P.variant_has_fields.get((v.enum, v.variant)):
                 v = Adt(v.enum, v.variant, ())
             return v
         if k == "ref":
@@ -976,6 +1010,10 @@ class Interp:
                 vals = [self.eval_operand(o, fr, st) for o in ops]
                 if len(names) >= 2 and names[-2] in self.P.enum_variants and names[-1] in self.P.enum_variants[names[-2]]:
                     return Adt(names[-2], names[-1], vals)
+                if len(names) == 1 and names[0] not in self.P.struct_fields:
+                    owners = [e for e, vs in self.P.enum_variants.items() if names[0] in vs]
+                    if len(owners) == 1:
+                        return Adt(owners[0], names[0], vals)
                 return Adt(names[-1], None, vals)          # tuple struct
             if kind == "struct":
                 p = parse_path(subst_env(path, fr.env))
@@ -1063,8 +1101,8 @@ class Interp:
 
     def cast(self, v, ty, ck, op, fr):
         ty = ty.strip()
-        if ck.startswith("Transmute") and ty in INT_TYPES and isinstance(v, (BoxV, Ref, ValRef)):
-            return 0      # address of an allocation: modelled as suitably aligned (alignment checks pass)
+        if ck.startswith("Transmute") and ty in INT_TYPES and isinstance(v, (BoxV, Ref, ValRef, HeapBox)):
+            return 0x1000 # address of an allocation: modelled as non-null and suitably aligned
         if ck.startswith("IntToInt") or ck.startswith("Transmute") and ty in INT_TYPES:
             bits, signed = self.int_bits(ty) or (None, None)
             if bits is None:
@@ -1302,7 +1340,7 @@ class Interp:
                 continue
             if t.target is None:
                 raise Unsupported("diverging call returned: %s" % (t.callee,))
-            if isinstance(v, VariantOrCtor):
+            if isinstance(v, VariantOrCtor) and not self.P.variant_has_fields.get((v.enum, v.variant)):
                 v = Adt(v.enum, v.variant, ())
             self.write_place(t.place, v, fr, s2)
             paths.append((s2, t.target))
@@ -1405,6 +1443,22 @@ class Interp:
                 outs.extend(self.call_value(c, args, st.fork(g)))
             return outs
         raise Unsupported("call of %r" % (callee,))
+
+    def call_inplace(self, callee, args, st):
+        """call a closure/fn value whose effects must be kept: requires a single (merged) normal
+        outcome; the caller's state is updated in place.  Panics propagate as PanicExc when they
+        are the only outcome."""
+        outs = self.call_value(callee, args, st)
+        normal = [(s, v) for s, v in outs if not isinstance(v, Panic)]
+        panics = [(s, v) for s, v in outs if isinstance(v, Panic)]
+        if panics and not normal:
+            raise PanicExc(panics[0][1].msg, panics[0][1].site)
+        if panics:
+            raise Unsupported("conditional panic inside an iterator adaptor closure")
+        s2, v = normal[0]
+        st.store = s2.store
+        st.pc = s2.pc
+        return v
 
     def call1(self, callee, args, st):
         """call a pure closure/fn value and return its single merged value; panics raise"""
